@@ -61,6 +61,31 @@ CHECKS = {
                 text="AsNum.tla: block table on digit sequences, maximal-digit-run scanner, M = hash mod size + begin with regex semantics; TLC checks M => R for a scaled table with every number and residue and for all short lines/lists. "
                      "The real class is driven at every block boundary with chosen hash residues, bulk random numbers, a line grammar and cross-instance/process families; every call is judged by TLC (AsNumTrace).",
                 tech="TLA+ AsNum (R/M) model-checked by TLC; TLC trace validation of the real AsNumberAnonymizer / anonymize_io calls"),
+    "C08": dict(cat="model_checking", ref="5/C08",
+                text="PwdLookup.tla models the three-way lookup of the code ($9$ plaintext keying, numbering by size); TLC checks that every reply in every history over a universe with $9$ aliases, malformed $9$ and reserved values "
+                     "is admissible for the injective growing lookup of Secrets.tla, and emits all histories; they are replayed on the real code in varied line forms/wrappings (plus long random runs and same-syntax-twice lines) and "
+                     "TLC judges each occurrence: same key => same decoded pseudonym, new key => unused pseudonym.",
+                tech="TLA+ PwdLookup (M) => Secrets (R) by TLC; TLC-generated histories replayed; TLC trace validation (Consistent, Injective)"),
+    "C12": dict(cat="model_checking", ref="5/C12",
+                text="PipeGen.tla: abstract pipeline with the theorem Conserved (line count/order, plain items, line locality) checked by TLC on every <feature set, text of line kinds, terminator> it enumerates; each is concretized "
+                     "and run through anonymize_io; Pipeline.tla (TLC) judges every line: terminator, lead/trail, token count, non-sensitive tokens, inner white space (collapse only with secret/word stage), plus split/permuted runs must agree.",
+                tech="TLA+ PipeGen (design theorems + case generation) and Pipeline (line-structure R) ; TLC trace validation of real anonymize_io runs"),
+    "C14": dict(cat="exploration", ref="5/C14",
+                text="AdvGen.tla enumerates adversarial fillings (backslash escapes, regex metacharacters, malformed $1$/$9$/$6$, near-IPv6, 2000 brackets, control/Unicode, 5000-char tokens) of keyword frames incl. frames that put user text "
+                     "into the kept prefix x 4 salt classes x 6 feature sets; each runs through anonymize_io and (sampled) anonymize_files; an exception, an ERROR record or a changed line count is an event TLC rejects. The input space is unbounded: exploration.",
+                tech="TLA+ AdvGen case enumeration by TLC + Pipeline trace validation (no failure action exists in the spec: any exception event is rejected)"),
+    "C15": dict(cat="model_checking", ref="5/C15",
+                text="PipeGen.tla states the composition law (ChainEqualsMulti) on the abstract pipeline and TLC checks it for all 16 feature sets and texts; for every enumerated case the real multi-feature FileAnonymizer output must equal "
+                     "(TLC compares) the chain of single-stage functions in the fixed order and the chain of single-feature FileAnonymizers, also with undo for the IP stage.",
+                tech="TLA+ PipeGen composition theorem by TLC; code-vs-code equality under the spec's recipe, judged by TLC"),
+    "C16": dict(cat="model_checking", ref="5/C16",
+                text="Files.tla (R: one-to-one, nothing else written, inputs untouched, errors named, isolation as a two-copy product) and FilesImpl.tla (M: walk, per-file try/except, both fault kinds) with M => R checked by TLC; TLC enumerates "
+                     "every tree <= 2(3) files x fault assignment x environment; each is materialised and run through the directory API, main, the CLI and the single-file API, content compared with the stream API; TLC judges each run (FilesTrace).",
+                tech="TLA+ Files/FilesImpl refinement by TLC; TLC-enumerated fault scenarios materialised and validated by TLC (fault enumeration inside a model-checking claim)"),
+    "C19": dict(cat="model_checking", ref="5/C19",
+                text="Cli.tla: option vector (each option on the command line / in the config file / both) -> Reject | NoOutput | Run(params) with precedence, defaults and equivalences; CliImpl.tla: main() as a step machine with 'nothing written unless R says Run' "
+                     "checked in every state; TLC enumerates the vectors (placements, pairs, validation table, walks); each runs the real main in a clean directory and, for Run, a direct anonymize_files(**params) reference; TLC judges outcome class and bytes.",
+                tech="TLA+ Cli (R) / CliImpl (M) model-checked; TLC-generated argument vectors run through the real main; TLC trace validation (CliTrace)"),
 }
 
 NA_REASON = "check not built yet (work in progress; see DESIGN.md section 5)"
